@@ -30,16 +30,28 @@ let six f = String.concat "" (List.map (fun k -> b2s (f (ni k))) [ 0; 1; 2; 3; 4
 let sets =
   [ ("var.A", [ TInt; TFloat ]); ("var.B", [ TInt; TTr; TFloat ]); ("var.C", [ TTr; TTr2 ]);
     ("var.D", [ TInt; TLong; TChar; TTr ]); ("var.E", [ TBool; TTr ]); ("var.F", [ TChar; TTr; TDouble ]);
-    ("var.G", [ TFloat; TLong ]); ("var.H", [ TBool; TStr ]); ("var.I", [ TStr; TTr; TBool ]) ]
+    ("var.G", [ TFloat; TLong ]); ("var.H", [ TBool; TStr ]); ("var.I", [ TStr; TTr; TBool ]);
+    (* repeated alternative types (index-based API only) and a floating alternative that takes NaN values *)
+    ("var.R", [ TTr; TTr ]); ("var.Q", [ TTr; TInt; TTr ]); ("var.J", [ TInt; TDouble ]);
+    (* TrivDef (trivial default constructor, user-provided copy / move): a class like Tracked2; its family has no
+       converting operations from Tracked / Tracked2 sources *)
+    ("var.P", [ TInt; TTr2 ]) ]
+
+(* the alternative type at position i occurs exactly once: the by-type API (emplace<T>, in_place_type<T>,
+   holds_alternative<T>, get_if<T>) is well-formed for it *)
+let uniq alts i =
+  let t = alt_ty alts (ni i) in
+  List.length (List.filter (fun u -> ty_id u = ty_id t) alts) = 1
 
 (* ------------------------------------------------------------------ variant *)
 let vop_of alts s =
   let t = tb s.t in
   match s.opc with
   | 'E' -> VEmplace (t, ni s.p, zi s.q)
-  | 'T' -> VEmplaceT (t, alt_ty alts (ni s.p), zi s.q)
+  | 'T' when uniq alts s.p -> VEmplaceT (t, alt_ty alts (ni s.p), zi s.q)
   | 'I' -> VInPlace (t, ni s.p, zi s.q)
-  | 'Y' -> VInPlaceT (t, alt_ty alts (ni s.p), zi s.q)
+  | 'Y' when uniq alts s.p -> VInPlaceT (t, alt_ty alts (ni s.p), zi s.q)
+  | 'T' | 'Y' -> VSelfCopy t   (* ill-formed call ("nc"): nothing happens; VSelfCopy is the identity in model and spec *)
   | 'V' -> VConvAssign (t, ty_of_id (ni s.p), zi s.q)
   | 'W' -> VConvCtor (t, ty_of_id (ni s.p), zi s.q)
   | 'L' -> VConvAssign (t, alt_ty alts (ni s.p), zi s.q)
@@ -57,8 +69,11 @@ let vop_of alts s =
 (* tokens printed in front of the state for a step *)
 let vstep_prefix alts s (xi, xv) =
   match s.opc with
+  | 'T' | 'Y' when not (uniq alts s.p) -> [ "nc" ]
   | 'E' | 'T' -> [ "r"; si xv ]
   | 'V' | 'W' -> ( match select alts (ty_of_id (ni s.p)) with None -> [ "nc" ] | Some _ -> [])
+  | 'L' -> ( match select alts (alt_ty alts (ni s.p)) with None -> [ "nc" ] | Some _ -> [])
+  | 'A' -> ( match select alts (alt_ty alts xi) with None -> [ "nc" ] | Some _ -> [])
   | _ -> []
 
 let var_model alts steps =
@@ -68,21 +83,27 @@ let var_model alts steps =
   let st = ref (var_default, var_default) in
   List.iter
     (fun s ->
+      let x0 = if tb s.t then snd !st else fst !st in
       st := ok_or (vstep alts !st (vop_of alts s));
       let a, b = !st in
       let x = if tb s.t then b else a in
-      add (vstep_prefix alts s (x.idx, x.val0));
+      add (vstep_prefix alts s ((if s.opc = 'A' then x0.idx else x.idx), x.val0));
       add [ sn a.idx; si a.val0; sn b.idx; si b.val0; six (fun k -> ok_or (var_rel alts k a b)); ";" ])
     steps;
   let a, b = !st in
   List.iter
     (fun x ->
       let idxs = List.init n (fun i -> i) in
-      let h = String.concat "" (List.map (fun i -> b2s (holds_alternative alts x (alt_ty alts (ni i)))) idxs) in
+      let h =
+        String.concat ""
+          (List.map (fun i -> if uniq alts i then b2s (holds_alternative alts x (alt_ty alts (ni i))) else "-") idxs)
+      in
       let g1 = String.concat "" (List.map (fun i -> b2s (ok_or (get_if x (ni i)) <> None)) idxs) in
       let g2 =
         String.concat ""
-          (List.map (fun i -> b2s (ok_or (get_if x (index_of (alt_ty alts (ni i)) alts)) <> None)) idxs)
+          (List.map
+             (fun i -> if uniq alts i then b2s (ok_or (get_if x (index_of (alt_ty alts (ni i)) alts)) <> None) else "-")
+             idxs)
       in
       add [ "h"; h; g1 ^ g2 ^ g1 ^ g2 ];
       match ok_or (visit_types [ alts ] [ x ]) with
@@ -92,6 +113,8 @@ let var_model alts steps =
   add [ six (fun k -> ok_or (var_rel alts k a b)); six (fun k -> ok_or (var_rel alts k b a)) ];
   (* value categories handed to the visitor: not modelled beyond "the category of the variant expression" *)
   add [ "vc"; "lcrkrc" ];
+  (* visit returns what the visitor returns, references included: both C++ legs only *)
+  add [ "vr"; "1"; "1"; "1"; "1"; "1" ];
   add ("v2" :: List.concat_map (fun (t, v) -> [ sn (ty_id t); si v ]) (ok_or (visit_types [ alts; alts ] [ a; b ])));
   add
     ("v3"
@@ -106,20 +129,26 @@ let var_spec alts steps =
   let st = ref ((O, Z0), (O, Z0)) in
   List.iter
     (fun s ->
+      let x0 = if tb s.t then snd !st else fst !st in
       st := sv_step alts !st (vop_of alts s);
       let a, b = !st in
       let x = if tb s.t then b else a in
-      add (vstep_prefix alts s x);
+      add (vstep_prefix alts s ((if s.opc = 'A' then fst x0 else fst x), snd x));
       add [ sn (fst a); si (snd a); sn (fst b); si (snd b); six (fun k -> sv_rel k a b); ";" ])
     steps;
   let a, b = !st in
   List.iter
     (fun x ->
       let idxs = List.init n (fun i -> i) in
-      let h = String.concat "" (List.map (fun i -> b2s (sv_holds alts x (alt_ty alts (ni i)))) idxs) in
+      let h =
+        String.concat "" (List.map (fun i -> if uniq alts i then b2s (sv_holds alts x (alt_ty alts (ni i))) else "-") idxs)
+      in
       let g1 = String.concat "" (List.map (fun i -> b2s (sv_get_if x (ni i) <> None)) idxs) in
       let g2 =
-        String.concat "" (List.map (fun i -> b2s (sv_get_if x (index_of (alt_ty alts (ni i)) alts) <> None)) idxs)
+        String.concat ""
+          (List.map
+             (fun i -> if uniq alts i then b2s (sv_get_if x (index_of (alt_ty alts (ni i)) alts) <> None) else "-")
+             idxs)
       in
       add [ "h"; h; g1 ^ g2 ^ g1 ^ g2 ];
       match sv_visit [ alts ] [ x ] with
@@ -128,6 +157,8 @@ let var_spec alts steps =
     [ a; b ];
   add [ six (fun k -> sv_rel k a b); six (fun k -> sv_rel k b a) ];
   add [ "vc"; "lcrkrc" ];
+  (* visit returns what the visitor returns, references included: both C++ legs only *)
+  add [ "vr"; "1"; "1"; "1"; "1"; "1" ];
   add ("v2" :: List.concat_map (fun (t, v) -> [ sn (ty_id t); si v ]) (sv_visit [ alts; alts ] [ a; b ]));
   add ("v3" :: List.concat_map (fun (t, v) -> [ sn (ty_id t); si v ]) (sv_visit [ alts; alts; alts ] [ b; a; b ]));
   add [ "life"; "ok" ];
@@ -166,6 +197,10 @@ let oop_of tU s =
   | 'J' -> OCtorValueU (t, nu (zi s.p))
   | 'd' | 'D' -> OCtorEmpty t
   | _ -> raise Not_found
+
+(* the values an optional is compared with: a floating T/U pair also with a NaN *)
+let is_fp t = (t = TFloat || t = TDouble)
+let fp_vals tT tU = [ 1; 2; 3; (if is_fp tT && is_fp tU then 1000 else 3) ]
 
 let f_and_then v = if Big.equal (big_of_z v) (Big.of_int 2) then None else Some (z_of_big (Big.mul (big_of_z v) (Big.of_int 10)))
 let so = function Some v -> si v | None -> "-1"
@@ -224,7 +259,7 @@ let opt_model tT tU steps =
         let lu = six (fun k -> ok_or (opt_rel_val k false a (norm_u tU (zi v)))) in
         let ru = six (fun k -> ok_or (opt_rel_val k true a (norm_u tU (zi v)))) in
         add [ l; r; lu; ru ])
-      [ 1; 2; 3 ];
+      (fp_vals tT tU);
     add [ six (fun k -> ok_or (opt_rel k a c)); six (fun k -> ok_or (opt_rel k c a)) ]
   in
   observers a b;
@@ -274,7 +309,7 @@ let opt_spec tT tU steps =
         let lu = six (fun k -> so_rel_val k false a (norm_u tU (zi v))) in
         let ru = six (fun k -> so_rel_val k true a (norm_u tU (zi v))) in
         add [ l; r; lu; ru ])
-      [ 1; 2; 3 ];
+      (fp_vals tT tU);
     add [ six (fun k -> so_rel k a c); six (fun k -> so_rel k c a) ]
   in
   observers a b;
@@ -506,24 +541,27 @@ let run_case op tk =
       (guard (fun () -> var_model alts steps), guard (fun () -> var_spec alts steps))
   | None -> (
       match op with
-      | "opt.is" | "opt.ti" | "opt.t2" | "opt.ib" ->
+      | "opt.is" | "opt.ti" | "opt.t2" | "opt.ib" | "opt.df" ->
           let tT, tU =
             match op with
             | "opt.is" -> (TInt, TShort)
+            | "opt.df" -> (TDouble, TFloat)
             | "opt.ti" -> (TTr, TInt)
             | "opt.ib" -> (TInt, TBool)
             | _ -> (TTr2, TTr)
           in
           let steps = read_steps tk in
           (guard (fun () -> opt_model tT tU steps), guard (fun () -> opt_spec tT tU steps))
-      | "exp.il" | "exp.tt" | "exp.ti" | "exp.ii" ->
+      | "exp.il" | "exp.tt" | "exp.ti" | "exp.ii" | "exp.rr" ->
           let tT, tE =
-            match op with "exp.il" -> (TInt, TLong) | "exp.tt" -> (TTr, TTr2) | "exp.ii" -> (TInt, TInt) | _ -> (TTr, TInt)
+            match op with
+            | "exp.il" -> (TInt, TLong) | "exp.tt" -> (TTr, TTr2) | "exp.ii" -> (TInt, TInt) | "exp.rr" -> (TTr, TTr)
+            | _ -> (TTr, TInt)
           in
           let steps = read_steps tk in
           (guard (fun () -> exp_model tT tE steps), guard (fun () -> exp_spec tT tE steps))
-      | "unx.il" | "unx.tt" ->
-          let tE = if op = "unx.il" then TInt else TTr in
+      | "unx.il" | "unx.tt" | "unx.df" ->
+          let tE = if op = "unx.il" then TInt else if op = "unx.df" then TDouble else TTr in
           let steps = read_steps tk in
           (guard (fun () -> unx_leg (ustep tE) steps), guard (fun () -> unx_leg (su_step tE) steps))
       | "ref.i" | "ref.t" | "cref.i" | "cref.t" | "bref.d" | "cbref.d" ->
